@@ -23,12 +23,12 @@ RULE = ("ProgGen programs over a 3-letter type alphabet (so equal types recur as
         "(expected dicts generated as true subsets and with one wrong / missing pair). non-trivial = a type occurring at >=2 depths or "
         "nested inside itself; distinct by program shape")
 ASSUMPTIONS = ["all actions are finished before the helpers are used (of_type documents ValueError otherwise)"]
-BATCH = 10
+BATCH = 30
 TYPES = ["t:a", "t:b", "t:c"]
 
 
 def plan(tier, seed):
-    n = 2000 if tier == "quick" else 40000
+    n = 6000 if tier == "quick" else 60000
     return [{"seed": seed, "lo": i, "hi": min(n, i + BATCH)} for i in range(0, n, BATCH)]
 
 
